@@ -103,6 +103,21 @@ Theorem C11_neutral_addon : forall (e : list Q) (capex opex : Q),
 Proof. exact zero_addon_neutral. Qed.
 Print Assumptions C11_neutral_addon.
 
+(* ... stated on the cash-flow model of EconomicsAddOns.Calculate (the one the C04 correspondence evaluates against the
+   code's own AddOn / Project cash-flow vectors): an add-on with zero CAPEX, OPEX, gains and profit has an all-zero
+   cash flow, and the project cash flow with it equals, year by year, the project cash flow without it *)
+Theorem C11_zero_addon_cashflow : forall a : addon_in,
+  a_capex a == 0 -> a_opex a == 0 -> a_egain a == 0 -> a_hgain a == 0 -> a_profit a == 0 ->
+  allzero (addon_cashflow a).
+Proof. exact zero_addon_cashflow_is_zero. Qed.
+Print Assumptions C11_zero_addon_cashflow.
+
+Theorem C11_zero_addon_project : forall a : addon_in,
+  a_capex a == 0 -> a_opex a == 0 -> a_egain a == 0 -> a_hgain a == 0 -> a_profit a == 0 ->
+  Forall2 Qeq (addon_project_cashflow a) (base_project_cashflow a).
+Proof. exact zero_addon_project_cashflow. Qed.
+Print Assumptions C11_zero_addon_project.
+
 (* ---- non-vacuity ---- *)
 Example ex_scale : let c := Verif.Props.C01.ex1 in
   let '(a, b, _) := lcoe_exec c in let '(a3, b3, _) := lcoe_exec (scale_costs 3 c) in a3 == 3 * a /\ b3 == 3 * b /\ 0 < a.
@@ -122,3 +137,12 @@ Proof.
   - cbn [ci_eH ci_pCarb length]. apply le_n.
   - vm_compute. reflexivity.
 Qed.
+
+(* a co-generation project with a zero add-on: the base cash flow is not trivial (length 5, non-zero years) *)
+Example ex_zero_addon :
+  let a := {| a_kind := KCogen; a_cy := 2; a_ccap := 40; a_coam := 3; a_capex := 0; a_opex := 0; a_egain := 0; a_hgain := 0;
+              a_profit := 0; a_net := [5000000; 4000000; 3000000]; a_heat := [2000000; 2000000; 2000000];
+              a_pE := [1; 1; 1]; a_pH := [1 # 2; 1 # 2; 1 # 2] |} in
+  length (base_project_cashflow a) = 5%nat /\ nth 2 (base_project_cashflow a) 0 == 3 /\
+  nth 2 (addon_project_cashflow a) 0 == 3 /\ nth 0 (addon_project_cashflow a) 0 == - (20).
+Proof. cbv zeta. vm_compute. repeat split. Qed.
